@@ -374,10 +374,21 @@ def sliceStep (lo hi : Str) : Node → Ctx → Gen Res
 
 /-! ## ANCHOR -/
 
+/-- `"[&{}]".format(escape_path_section(anchor))` — the path section every anchor match reports. -/
+def anchorSection (a : Str) : Str := '[' :: '&' :: (escSection a ++ [']'])
+
+/-- The child coordinates of an anchor match: as for `*`, but the path names the anchor. -/
+def anchorKids (a : Str) : Node → Ctx → List NC
+  | .seq _ items, c => go c items 0
+  | .map _ es, c => es.map (fun kv => (kv.2, c.child (.key kv.1) (.key kv.1) (anchorSection a)))
+  | _, _ => []
+where
+  go (c : Ctx) : List Node → Nat → List NC
+    | [], _ => []
+    | n :: ns, i => (n, c.child (.idx i) (.idx i) (anchorSection a)) :: go c ns (i + 1)
+
 def anchorStep (a : Str) (n : Node) (c : Ctx) : Gen NC :=
-  match n with
-  | .set .. => Gen.nil
-  | _ => Gen.ofList ((deepKids n c).filter (fun nc => nc.1.anchor == some a))
+  Gen.ofList ((anchorKids a n c).filter (fun nc => nc.1.anchor == some a))
 
 /-! ## SEARCH -/
 
